@@ -17,6 +17,7 @@ RULE = (
     "identically. Non-trivial: >= 1 body execution or a cap below the needed steps; distinct = (template, parameters, cap)."
     ' Also: a gate synchronised on TWO signals emitted by parallel body branches of different length (interval loop) and two exit gates that share one exit node, in both gate list orders.'
     ' Also: every non-nested template once more declared through Graph(edges=[...]) with producer->consumer, self, signal and gate->target arrows; fan-out/join cycles (one and two loop values) and a three-stage turn whose gate reads the first stage and waits for the last.'
+    " Every template (size 1 and 3) also with all function nodes and/or gates cache=True, three runs on one cache backend (cold, warm, warm): values of the sequential loop each time, no node more often than in it. Template with two writers of one name in exclusive branches taking turns next to the counter cycle."
 )
 ASSUMPTIONS = [
     "the sequential reference shares only the user functions (hgmon.beh) with the program, no framework semantics",
@@ -160,6 +161,45 @@ def explicit_variant(ctx, t):
     check_template(ctx, t2, sweep=False)
 
 
+def cached_variant(ctx, t):
+    """The same loop with every function node and gate marked cache=True, run three times on ONE cache backend (cold,
+    then twice warm - results, routing decisions and ordering signals replayed from the cache): each run must end with
+    the values of the sequential while-loop and no node may execute more often than in it."""
+    import copy
+
+    from hypergraph import InMemoryCache
+
+    if any(ns["k"] in ("sub", "int") or ns.get("gen") for ns in t["spec"]["nodes"]) or t["ref"].get("mechanism"):
+        return
+    spec = copy.deepcopy(t["spec"])
+    skip = ctx.rng.choice([None, None, "gates", "fns"])  # everything cached, or only one kind
+    for ns in spec["nodes"]:
+        if (ns["k"] == "fn" and skip != "fns") or (ns["k"] in ("route", "ifelse") and skip != "gates"):
+            ns["cache"] = True
+    R = t["ref"]
+    for runner in ("sync", "async"):
+        cache = InMemoryCache()
+        for k in range(3):
+            s = core.with_async(spec, runner == "async", ctx.rng)
+            o = core.execute(s, t["inputs"], runner, cache=cache, max_iterations=400, sched=rt.Sched(default="rand", rng=ctx.rng) if runner == "async" else None)
+            ctx.obs["cached_template_runs"] += 1
+            case = {"template": t["template"] + "+cache", "spec": spec, "inputs": t["inputs"], "runner": runner, "run": k, "uncached_kind": skip}
+            if o.deadlock or o.inconclusive:
+                ctx.inconc(o.inconclusive or "deadlock")
+                break
+            if o.exc is not None:
+                ctx.violation("C04:raised:" + type(o.exc).__name__, f"{runner}, run {k} on one cache: raised {o.exc!r}; sequential loop gives {core.short(R['values'])}", case)
+                break
+            if o.values != R["values"]:
+                ctx.violation("C04:values:cached", f"{runner}, run {k} on one cache ({'cold' if k == 0 else 'warm'}): final values {core.short(o.values)} differ from the sequential while-loop {core.short(R['values'])}", case)
+                break
+            got = counts_of(o.rec, spec["name"])
+            over = {f: c for f, c in got.items() if c > R["counts"].get(f.split("/", 1)[1], 0) and f.split("/", 1)[1] not in R.get("uncounted", ())}
+            if over:
+                ctx.violation("C04:count:more", f"{runner}, run {k} on one cache: {over} exceed the while-loop's counts {R['counts']}", case)
+                break
+
+
 def run(ctx):
     if ctx.replay:
         c = ctx.replay["case"]
@@ -190,6 +230,7 @@ def run(ctx):
             lambda: loops.early_read_signal_loop(N + 1, 1, "ifelse"),
             lambda: loops.fanout_join_pair_loop(5 * N, N % 2),
             lambda: loops.fanout_join_loop(4 * N, 0, "empty", True),
+            lambda: loops.alternating_writers_loop(N + 1, N % 2),
         ):
             if ctx.shard[0] != sysn % ctx.shard[1]:
                 sysn += 1
@@ -198,6 +239,8 @@ def run(ctx):
             t = mk()
             check_template(ctx, t)
             explicit_variant(ctx, t)
+            if N in (1, 3):
+                cached_variant(ctx, t)
             ctx.case({"t": t["template"], "in": t["inputs"], "N": N}, sum(t["ref"]["counts"].values()) > 1, sample={"template": t["template"], "inputs": t["inputs"], "spec": t["spec"], "expected": t["ref"]["values"]} if N == 2 else None)
     for i in range(n):
         t = loops.gen_loop(ctx.rng)
